@@ -192,4 +192,224 @@ theorem roundPos_scale (n j : Nat) (e : Int) (h0 : n ≠ 0) :
     have e2 : e - ((j + 1 : Nat) : Int) = (e - (j : Int)) - 1 := by omega
     rw [e1, e2, roundPos_double _ _ h1, ih]
 
+/-! ## 4. Lemma R -/
+
+/-- rounding `n/2^s` gives `q` when `n` lies between `(q−½)·2^s` and `(q+½)·2^s` (ends only for even `q`) -/
+theorem rnd_eq_of_interval (n s q H P : Nat) (hs : 1 ≤ s) (hq : 1 ≤ q)
+    (hH : 2 ^ s = 2 * H) (hP : P = q * H)
+    (hlo : 2 * P ≤ n + H) (hhi : n ≤ 2 * P + H)
+    (hodd : q % 2 = 1 → 2 * P < n + H ∧ n < 2 * P + H) : rnd n s = q := by
+  have hH' : 2 ^ (s - 1) = H := by have := pow_pred_double s hs; omega
+  have hHpos : 0 < H := by rw [← hH']; exact two_pow_pos _
+  obtain ⟨q', rfl⟩ : ∃ q', q = q' + 1 := ⟨q - 1, by omega⟩
+  have e1 : (q' + 1) * H = q' * H + H := by rw [Nat.add_mul, Nat.one_mul]
+  have e2 : q' * (2 * H) = 2 * (q' * H) := by ac_rfl
+  have e3 : (q' + 1) * (2 * H) = 2 * (q' * H) + 2 * H := by rw [Nat.add_mul, Nat.one_mul, e2]
+  have e4 : (q' + 1 + 1) * (2 * H) = 2 * (q' * H) + 4 * H := by rw [Nat.add_mul, Nat.one_mul, e3]; omega
+  have e5 : 2 * H * q' = 2 * (q' * H) := by ac_rfl
+  have e6 : 2 * H * (q' + 1) = 2 * (q' * H) + 2 * H := by rw [Nat.mul_comm, e3]
+  rw [e1] at hP
+  unfold rnd rndS
+  rw [hH', hH]
+  have hdm := Nat.div_add_mod n (2 * H)
+  by_cases c : n < 2 * P
+  · have hk : n / (2 * H) = q' := by
+      apply Nat.div_eq_of_lt_le
+      · rw [e2]; omega
+      · rw [e3]; omega
+    rw [hk] at hdm ⊢
+    rw [e5] at hdm
+    generalize n % (2 * H) = r at *
+    generalize q' * H = Q at *
+    simp only [Bool.false_or, beq_iff_eq]
+    split
+    · rfl
+    · split
+      · omega
+      · split
+        · rfl
+        · omega
+  · have hk : n / (2 * H) = q' + 1 := by
+      apply Nat.div_eq_of_lt_le
+      · rw [e3]; omega
+      · rw [e4]; omega
+    rw [hk] at hdm ⊢
+    rw [e6] at hdm
+    generalize n % (2 * H) = r at *
+    generalize q' * H = Q at *
+    simp only [Bool.false_or, beq_iff_eq]
+    split
+    · omega
+    · split
+      · rfl
+      · split
+        · omega
+        · rfl
+
+/-! ## 5. Interval form of correct rounding -/
+
+/-- mantissa, exponent of the finite non-negative binary64 with biased exponent `ex`, fraction `fr` -/
+def mantOf (ex fr : Nat) : Nat := if ex = 0 then fr else fr + 2 ^ 52
+def expOf (ex : Nat) : Int := if ex = 0 then -1074 else (ex : Int) - 1075
+/-- the lower neighbour is half as far -/
+def lcOf (ex fr : Nat) : Bool := fr == 0 && decide (ex > 1)
+/-- the half-way points to the neighbours, in units of `2^(expOf ex − 2)` -/
+def loNum (ex fr : Nat) : Nat := if lcOf ex fr then 4 * mantOf ex fr - 1 else 4 * mantOf ex fr - 2
+def hiNum (ex fr : Nat) : Nat := 4 * mantOf ex fr + 2
+def bitsOf (ex fr : Nat) : UInt64 := UInt64.ofNat (ex * 2 ^ 52 + fr)
+
+theorem finish_sub (fr : Nat) (h : fr < 2 ^ 52) : finish fr (-1074) = some (bitsOf 0 fr) := by
+  rw [finish_split, if_neg (by omega)]
+  unfold finish2 bitsOf
+  rw [if_pos h]; simp
+
+theorem finish_norm (ex m : Nat) (h1 : 1 ≤ ex) (h2 : ex < 2047) (hm : 2 ^ 52 ≤ m) (hm2 : m < 2 ^ 53) :
+    finish m ((ex : Int) - 1075) = some (bitsOf ex (m - 2 ^ 52)) := by
+  rw [finish_split, if_neg (by omega)]
+  unfold finish2 bitsOf
+  rw [if_neg (by omega), if_neg (by omega)]
+  have : ((ex : Int) - 1075 + 1075).toNat = ex := by omega
+  rw [this]
+
+theorem finish_carry (ex : Nat) (h1 : 2 ≤ ex) (h2 : ex < 2047) :
+    finish (2 ^ 53) ((ex : Int) - 1075 - 1) = some (bitsOf ex 0) := by
+  rw [finish_split, if_pos rfl]
+  have : (ex : Int) - 1075 - 1 + 1 = (ex : Int) - 1075 := by omega
+  rw [this, ← finish_norm ex (2 ^ 52) (by omega) h2 (Nat.le_refl _) (by decide)]
+  rw [finish_split, if_neg (by decide)]
+
+theorem etOf_eq (n a : Nat) (e : Int) (h1 : 2 ^ a ≤ n) (h2 : n < 2 ^ (a + 1)) :
+    etOf n e = max (e + a - 52) (-1074) := by
+  unfold etOf; rw [log2_eq_of_bounds h1 h2]; omega
+
+theorem etOf_sub (n a : Nat) (e : Int) (h0 : n ≠ 0) (h2 : n < 2 ^ a) (he : e + a - 53 ≤ -1074) :
+    etOf n e = -1074 := by
+  have := (Nat.log2_lt h0).mpr h2
+  unfold etOf; omega
+
+/-- **Interval form of correct rounding** (T2'): every `n·2^e` between the half-way points to the neighbours
+    of the finite positive binary64 `(ex, fr)` rounds to it; the half-way points themselves do when the
+    mantissa is even.  `e` is at least two binary places below the exponent of the float
+    (`roundPos_scale` provides this). -/
+theorem roundPos_interval (ex fr n t : Nat) (e : Int) (hex : ex < 2047) (hfr : fr < 2 ^ 52)
+    (hne : mantOf ex fr ≠ 0) (he : e = expOf ex - ((t + 2 : Nat) : Int))
+    (hlo : loNum ex fr * 2 ^ t ≤ n) (hhi : n ≤ hiNum ex fr * 2 ^ t)
+    (hodd : mantOf ex fr % 2 = 1 → loNum ex fr * 2 ^ t < n ∧ n < hiNum ex fr * 2 ^ t) :
+    roundPos n e false = some (bitsOf ex fr) := by
+  have hHpos := two_pow_pos t
+  have p1 : 2 ^ (t + 1) = 2 * 2 ^ t := by rw [Nat.pow_succ]; omega
+  have p2 : 2 ^ (t + 2) = 2 * (2 * 2 ^ t) := by rw [Nat.pow_succ, p1]; omega
+  have p52 : 2 ^ (52 + t + 1) = 2 ^ 53 * 2 ^ t := by rw [← Nat.pow_add]; congr 1; omega
+  have p53 : 2 ^ (53 + t + 1) = 2 ^ 54 * 2 ^ t := by rw [← Nat.pow_add]; congr 1; omega
+  have p54 : 2 ^ (54 + t + 1) = 2 ^ 55 * 2 ^ t := by rw [← Nat.pow_add]; congr 1; omega
+  generalize hH : 2 ^ t = H at *
+  have hmul : ∀ a : Nat, (4 * a + 2) * H = 4 * (a * H) + 2 * H := by
+    intro a; rw [Nat.add_mul, Nat.mul_assoc]
+  have hmul1 : ∀ a : Nat, 1 ≤ a → (4 * a - 1) * H = 4 * (a * H) - H := by
+    intro a _; rw [Nat.sub_mul, Nat.mul_assoc, Nat.one_mul]
+  have hmul2 : ∀ a : Nat, 1 ≤ a → (4 * a - 2) * H = 4 * (a * H) - 2 * H := by
+    intro a _; rw [Nat.sub_mul, Nat.mul_assoc]
+  have hmul3 : ∀ a : Nat, a * (2 * H) = 2 * (a * H) := by intro a; ac_rfl
+  by_cases h0 : ex = 0
+  · -- subnormal
+    subst h0
+    simp only [mantOf, if_true] at hne hodd
+    simp only [loNum, hiNum, lcOf, mantOf, expOf, if_true, Bool.and_eq_true, decide_eq_true_eq,
+      and_false, if_false, gt_iff_lt,
+      show ¬ (0 > 1) by decide] at hlo hhi hodd he
+    rw [hmul] at hhi hodd
+    rw [hmul2 _ (by omega)] at hlo hodd
+    have hP1 : H ≤ fr * H := Nat.le_mul_of_pos_left H (by omega)
+    have hP2 : fr * H + H ≤ 2 ^ 52 * H := by
+      have : (fr + 1) * H ≤ 2 ^ 52 * H := Nat.mul_le_mul_right H (by omega)
+      rw [Nat.add_mul, Nat.one_mul] at this; exact this
+    generalize hP : fr * H = P at *
+    have hn0 : n ≠ 0 := by omega
+    have het : etOf n e = -1074 := by
+      apply etOf_sub n (53 + t + 1) e hn0
+      · rw [p53]; omega
+      · omega
+    have hsh : (etOf n e - e).toNat = t + 2 := by omega
+    rw [roundPos_shr n e false hn0 (by omega), hsh, het]
+    have := rnd_eq_of_interval n (t + 2) fr (2 * H) (2 * P) (by omega) (by omega) p2
+      (by rw [← hP, hmul3]) (by omega) (by omega) (by omega)
+    unfold rnd at this
+    rw [this, finish_sub fr hfr]
+  · -- normal
+    have hex1 : 1 ≤ ex := by omega
+    have hexp : expOf ex = (ex : Int) - 1075 := by simp [expOf, h0]
+    rw [hexp] at he
+    simp only [mantOf, h0, if_false] at hne hodd
+    simp only [hiNum, mantOf, h0, if_false] at hhi hodd
+    rw [hmul] at hhi hodd
+    have hP1 : 2 ^ 52 * H ≤ (fr + 2 ^ 52) * H := Nat.mul_le_mul_right H (by omega)
+    have hP2 : (fr + 2 ^ 52) * H + H ≤ 2 ^ 53 * H := by
+      have : (fr + 2 ^ 52 + 1) * H ≤ 2 ^ 53 * H := Nat.mul_le_mul_right H (by omega)
+      rw [Nat.add_mul _ 1, Nat.one_mul] at this; exact this
+    have hP3 : fr ≠ 0 → 2 ^ 52 * H + H ≤ (fr + 2 ^ 52) * H := by
+      intro hf
+      have : (2 ^ 52 + 1) * H ≤ (fr + 2 ^ 52) * H := Nat.mul_le_mul_right H (by omega)
+      rw [Nat.add_mul _ 1, Nat.one_mul] at this; exact this
+    have hP4 : fr = 0 → (fr + 2 ^ 52) * H = 2 ^ 52 * H := by intro hf; rw [hf, Nat.zero_add]
+    have hmant : (fr + 2 ^ 52) * (2 * H) = 2 * ((fr + 2 ^ 52) * H) := hmul3 _
+    -- the generic case: `n` has the same binade as the float
+    have upper : 2 ^ 54 * H ≤ n → 4 * ((fr + 2 ^ 52) * H) ≤ n + 2 * H →
+        ((fr + 2 ^ 52) % 2 = 1 → 4 * ((fr + 2 ^ 52) * H) < n + 2 * H) →
+        roundPos n e false = some (bitsOf ex fr) := by
+      intro hge hl hls
+      generalize hP : (fr + 2 ^ 52) * H = P at *
+      have hn0 : n ≠ 0 := by omega
+      have het : etOf n e = (ex : Int) - 1075 := by
+        rw [etOf_eq n (54 + t) e (by rw [Nat.pow_add, hH]; exact hge) (by rw [p54]; omega)]
+        omega
+      have hsh : (etOf n e - e).toNat = t + 2 := by omega
+      rw [roundPos_shr n e false hn0 (by omega), hsh, het]
+      have := rnd_eq_of_interval n (t + 2) (fr + 2 ^ 52) (2 * H) (2 * P) (by omega) (by omega) p2
+        (by rw [← hP, hmul3]) (by omega) (by omega) (by omega)
+      unfold rnd at this
+      rw [this, finish_norm ex _ hex1 hex (by omega) (by omega), Nat.add_sub_cancel]
+    by_cases hfr0 : fr = 0
+    · have hPe := hP4 hfr0
+      by_cases hup : 2 ^ 54 * H ≤ n
+      · exact upper hup (by omega) (by omega)
+      · by_cases hx : 1 < ex
+        · -- the lower neighbour is in the binade below: exponent one less, mantissa carries to 2^53
+          have hlc : lcOf ex fr = true := by simp [lcOf, hfr0, hx]
+          simp only [loNum, hlc, if_true, mantOf, h0, if_false] at hlo
+          rw [hmul1 _ (by omega)] at hlo
+          have hn0 : n ≠ 0 := by omega
+          have het : etOf n e = (ex : Int) - 1075 - 1 := by
+            rw [etOf_eq n (53 + t) e (by rw [Nat.pow_add, hH]; omega) (by rw [p53]; omega)]
+            omega
+          have hsh : (etOf n e - e).toNat = t + 1 := by omega
+          rw [roundPos_shr n e false hn0 (by omega), hsh, het]
+          have := rnd_eq_of_interval n (t + 1) (2 ^ 53) H (2 ^ 53 * H) (by omega) (by omega) p1
+            rfl (by omega) (by omega) (by omega)
+          unfold rnd at this
+          rw [this, finish_carry ex hx hex, hfr0]
+        · -- ex = 1: the lower neighbour is the largest subnormal, same spacing
+          have hx1 : ex = 1 := by omega
+          have hlc : lcOf ex fr = false := by simp [lcOf, hx1]
+          simp only [loNum, hlc, Bool.false_eq_true, if_false, mantOf, h0] at hlo hodd
+          rw [hmul2 _ (by omega)] at hlo hodd
+          have hn0 : n ≠ 0 := by omega
+          have het : etOf n e = -1074 := by
+            apply etOf_sub n (53 + t + 1) e hn0
+            · rw [p53]; omega
+            · omega
+          have hsh : (etOf n e - e).toNat = t + 2 := by omega
+          rw [roundPos_shr n e false hn0 (by omega), hsh, het]
+          have := rnd_eq_of_interval n (t + 2) (2 ^ 52) (2 * H) (2 * (2 ^ 52 * H)) (by omega) (by omega) p2
+            (by rw [hmul3]) (by omega) (by omega) (by omega)
+          unfold rnd at this
+          rw [this]
+          have := finish_norm 1 (2 ^ 52) (by omega) (by omega) (Nat.le_refl _) (by decide)
+          rw [hx1, hfr0]
+          exact this
+    · have hlc : lcOf ex fr = false := by simp [lcOf, hfr0]
+      simp only [loNum, hlc, Bool.false_eq_true, if_false, mantOf, h0] at hlo hodd
+      rw [hmul2 _ (by omega)] at hlo hodd
+      have := hP3 hfr0
+      exact upper (by omega) (by omega) (by omega)
+
 end SJ.F64Round
